@@ -27,7 +27,7 @@ theorem Prog.All.mono {α : Type} {Q Q' : Call → Prop} {p : Prog α} (h : ∀ 
   | fail e => exact .fail e
   | call c k hc _ ih => exact .call c k (h c hc) ih
 
-theorem run_bind {α β : Type} (now : Time) (h : String) (f : Option Fault) (p : Prog α) (g : α → Prog β)
+theorem run_bind {α β : Type} (now : Time) (h : String) (f : Faults) (p : Prog α) (g : α → Prog β)
     (st : RunSt) :
     run now h f (Prog.bind p g) st =
       match run now h f p st with
@@ -47,7 +47,7 @@ theorem run_bind {α β : Type} (now : Time) (h : String) (f : Option Fault) (p 
 /-- A relation on (tables, sequences) that every store call satisfying `Q`
     respects — on success and on failure (a failing call may still consume a
     sequence value) — is respected by every program made of such calls. -/
-theorem run_rel {α : Type} (now : Time) (h : String) (f : Option Fault) (Q : Call → Prop)
+theorem run_rel {α : Type} (now : Time) (h : String) (f : Faults) (Q : Call → Prop)
     (R : Db × Seqs → Db × Seqs → Prop) (refl : ∀ x, R x x) (trans : ∀ x y z, R x y → R y z → R x z)
     (hstep : ∀ c d sq, Q c →
       (∀ sq' e, exec now c d sq = (sq', .error e) → R (d, sq) (d, sq')) ∧
@@ -68,7 +68,7 @@ theorem run_rel {α : Type} (now : Time) (h : String) (f : Option Fault) (Q : Ca
         exact trans _ _ _ ((hstep c st.db st.seq hc).2 sq r d heq) (ih r ⟨d, sq, _, _⟩)
 
 /-- The call counter only grows. -/
-theorem run_n_le {α : Type} (now : Time) (h : String) (f : Option Fault) (p : Prog α) (st : RunSt) :
+theorem run_n_le {α : Type} (now : Time) (h : String) (f : Faults) (p : Prog α) (st : RunSt) :
     st.n ≤ (run now h f p st).2.n := by
   induction p generalizing st with
   | pure a => exact Nat.le_refl _
